@@ -313,6 +313,7 @@ class Engine:
             x, y = p.mem.get((seg, off - 2)), p.mem.get((seg, off - 1))
             if x is None or y is None:
                 return None
+            p.hstate["uf"] = True
             v = PEDERSEN(zexpr(x), zexpr(y))
             p.cons.append(Con("assume", z3.And(v >= 0, v < P), "pedersen-range"))
             p.mem[a] = v
@@ -322,6 +323,7 @@ class Engine:
             ins = [p.mem.get((seg, base + i)) for i in range(3)]
             if any(i is None for i in ins):
                 return None
+            p.hstate["uf"] = True
             v = POSEIDON[off % 6 - 3](*[zexpr(i) for i in ins])
             p.cons.append(Con("assume", z3.And(v >= 0, v < P), "poseidon-range"))
             p.mem[a] = v
@@ -332,6 +334,7 @@ class Engine:
             if any(i is None for i in ins):
                 return None
             # The real builtin fails for some inputs (e.g. doubling); treated as total here.
+            p.hstate["uf"] = True
             v = ECOP[off % 7 - 5](*[zexpr(i) for i in ins], z3.IntVal(0))
             p.cons.append(Con("assume", z3.And(v >= 0, v < P), "ecop-range"))
             p.mem[a] = v
